@@ -19,7 +19,149 @@ type TermBuilder struct {
 	Names map[ssa.Value]string // placeholders for leaves (parameters, loop-carried values, elements)
 	// Bounds keeps slice bounds and computed element positions in the term (slice(X,lo,hi), elem(X,i))
 	Bounds bool
+	// Bind maps a callee's parameters to the caller's values (evaluated with the caller's builder)
+	Bind map[*ssa.Parameter]BoundVal
+	// Loaded applies the store invariant "a key field of a record equals the key it was loaded by": field F of the
+	// record returned by a store getter is replaced by the getter argument at F's key position
+	Loaded bool
 	depth  int
+}
+
+// BoundVal is an actual argument together with the builder of the function it lives in.
+type BoundVal struct {
+	Val ssa.Value
+	TB  *TermBuilder
+}
+
+// resolveRec follows bound parameters, single-store locals and loads to the value a record variable holds.
+func (t *TermBuilder) resolveRec(v ssa.Value, depth int) (ssa.Value, *TermBuilder) {
+	for ; depth < 8; depth++ {
+		switch x := v.(type) {
+		case *ssa.Parameter:
+			if b, ok := t.Bind[x]; ok && b.TB != nil {
+				return b.TB.resolveRec(b.Val, depth+1)
+			}
+			return v, t
+		case *ssa.UnOp:
+			if x.Op != token.MUL {
+				return v, t
+			}
+			v = x.X
+		case *ssa.Alloc:
+			var st *ssa.Store
+			n := 0
+			for _, r := range *x.Referrers() {
+				if s, ok := r.(*ssa.Store); ok && s.Addr == x {
+					st, n = s, n+1
+				}
+			}
+			if n != 1 {
+				return v, t
+			}
+			v = st.Val
+		default:
+			return v, t
+		}
+	}
+	return v, t
+}
+
+var keyFieldCache = map[string][]string{}
+
+// keyFieldsOf: for a store prefix, the record field behind each key component (from a Set op whose key is built
+// from the record's own fields); nil if unknown.
+func (p *Program) keyFieldsOf(name string) []string {
+	ck := name + p.TreeDigest
+	if r, ok := keyFieldCache[ck]; ok {
+		return r
+	}
+	var out []string
+	for _, fn := range p.Funcs {
+		for _, o := range p.StoreOps(fn) {
+			if o.Kind != "Set" || o.Module+"/"+o.Prefix != name || out != nil {
+				continue
+			}
+			comps := p.KeyComponents(o.Key, o.Instr)
+			var fs []string
+			for _, c := range comps {
+				at := p.ResolveToEntry(p.ProvAt(c.Val, "", c.At), fn).DataAtoms()
+				if len(at) != 1 || at[0].Kind != "param" || at[0].Fn != fn || at[0].Path == "" || strings.Count(at[0].Path, ".") != 1 {
+					fs = nil
+					break
+				}
+				fs = append(fs, strings.TrimPrefix(at[0].Path, "."))
+			}
+			if len(fs) == len(comps) && len(fs) > 0 {
+				out = fs
+			}
+		}
+	}
+	keyFieldCache[ck] = out
+	return out
+}
+
+// loadedKeyArg: rec is the record returned by a store getter call; returns the getter argument the record's key
+// field `field` equals.
+func (t *TermBuilder) loadedKeyArg(rec ssa.Value, field string) (ssa.Value, bool) {
+	var call *ssa.Call
+	switch x := rec.(type) {
+	case *ssa.Extract:
+		if c, ok := x.Tuple.(*ssa.Call); ok && x.Index == 0 {
+			call = c
+		}
+	case *ssa.Call:
+		call = x
+	}
+	if call == nil {
+		return nil, false
+	}
+	cs := t.P.Callees(call)
+	if len(cs) != 1 {
+		return nil, false
+	}
+	gi := t.P.StoreGetter(cs[0])
+	if gi == nil {
+		return nil, false
+	}
+	fields := t.P.keyFieldsOf(gi.Module + "/" + gi.Prefix)
+	if fields == nil {
+		return nil, false
+	}
+	for _, o := range t.P.StoreOps(cs[0]) {
+		if o.Kind != "Get" {
+			continue
+		}
+		comps := t.P.KeyComponents(o.Key, o.Instr)
+		if len(comps) != len(fields) {
+			return nil, false
+		}
+		var actuals []ssa.Value
+		if call.Call.IsInvoke() {
+			actuals = append(actuals, call.Call.Value)
+		}
+		actuals = append(actuals, call.Call.Args...)
+		for i, c := range comps {
+			if fields[i] != field {
+				continue
+			}
+			at := t.P.ResolveToEntry(t.P.ProvAt(c.Val, "", c.At), cs[0]).DataAtoms()
+			if len(at) == 1 && at[0].Kind == "param" && at[0].Fn == cs[0] && at[0].Path == "" && at[0].Idx < len(actuals) {
+				return actuals[at[0].Idx], true
+			}
+		}
+	}
+	return nil, false
+}
+
+// fieldTerm: term of X.field with the loaded-record invariant applied when enabled.
+func (t *TermBuilder) fieldTerm(x ssa.Value, field string) string {
+	if t.Loaded {
+		rec, tb := t.resolveRec(x, 0)
+		if arg, ok := tb.loadedKeyArg(rec, field); ok {
+			return tb.Term(arg)
+		}
+	}
+	return t.Term(x) + "." + field
 }
 
 func NewTermBuilder(p *Program) *TermBuilder {
@@ -104,6 +246,9 @@ func (t *TermBuilder) Term(v ssa.Value) string {
 		}
 		return x.Value.ExactString()
 	case *ssa.Parameter:
+		if b, ok := t.Bind[x]; ok && b.TB != nil {
+			return b.TB.Term(b.Val)
+		}
 		for i, p := range x.Parent().Params {
 			if p == x {
 				return fmt.Sprintf("P%d", i)
@@ -145,7 +290,7 @@ func (t *TermBuilder) Term(v ssa.Value) string {
 					return t.Term(st.Val)
 				}
 			case *ssa.FieldAddr:
-				return t.Term(a.X) + "." + fieldName(a.X.Type(), a.Field)
+				return t.fieldTerm(a.X, fieldName(a.X.Type(), a.Field))
 			case *ssa.IndexAddr:
 				return t.elemTerm(a.X, a.Index)
 			}
@@ -168,7 +313,7 @@ func (t *TermBuilder) Term(v ssa.Value) string {
 		}
 		return "(" + t.Term(x.X) + x.Op.String() + t.Term(x.Y) + ")"
 	case *ssa.Field:
-		return t.Term(x.X) + "." + fieldName(x.X.Type(), x.Field)
+		return t.fieldTerm(x.X, fieldName(x.X.Type(), x.Field))
 	case *ssa.FieldAddr:
 		return t.Term(x.X) + "." + fieldName(x.X.Type(), x.Field)
 	case *ssa.Alloc:
@@ -344,6 +489,7 @@ func (t *TermBuilder) callTerm(c *ssa.Call) string {
 			sub := NewTermBuilder(t.P)
 			sub.depth = t.depth
 			sub.Bounds = t.Bounds
+			sub.Loaded = t.Loaded
 			actuals := c.Call.Args
 			for i, prm := range cal.Params {
 				if i < len(actuals) {
